@@ -110,7 +110,7 @@ func runC10(w *World) {
 	}
 	hc := newHistChecker(w, inst, newModel(), "C10")
 	hc.exact = false
-	w.stepHooks = append(w.stepHooks, hc.stepHook)
+	w.stepHooks = append(w.stepHooks, hc.stepHook, auditHook(w, func() *Inst { return n.inst }, "C10"))
 
 	// fences: one per webhook, plus channel fences
 	nchan := 1 + w.knob("chans", 2)
@@ -149,6 +149,41 @@ func runC10(w *World) {
 			w.harnessErr("cannot parse hook fence")
 			return
 		}
+	}
+	// in half of the runs the names are first given other definitions (every kind detected,
+	// another area) and then re-defined: nothing of a replaced definition may keep firing, and
+	// nothing of the new one may be missing from the indexes that route events to it
+	presetup := w.program("presetup", func(r *rand.Rand) []Cmd {
+		var p []Cmd
+		if r.Intn(2) == 0 {
+			return p
+		}
+		for i := 0; i < nh; i++ {
+			if r.Intn(2) == 0 {
+				g := c05Fence(r, fmt.Sprintf("h%d", i), "fleet")
+				g.detect, g.accept, g.glob, g.whereF = nil, nil, "", ""
+				p = append(p, Cmd{Args: append([]string{"SETHOOK", g.name, fmt.Sprintf("http://hook%d.sim:80/cb", i)}, g.args()...)})
+			}
+		}
+		for i := 0; i < nchan; i++ {
+			if r.Intn(2) == 0 {
+				g := c05Fence(r, fmt.Sprintf("hc%d", i), "fleet")
+				g.detect, g.accept, g.glob, g.whereF = nil, nil, "", ""
+				p = append(p, Cmd{Args: append([]string{"SETCHAN", g.name}, g.args()...)})
+			}
+		}
+		return p
+	})
+	if len(presetup) > 0 {
+		pa := w.addActor(n, "127.0.0.1:50000", presetup)
+		pa.onReply = func(op *Op) { hc.onReply(op, pa.end.c.name) }
+		if !w.Drain(30*time.Second, pa.done) {
+			if !w.failed() {
+				w.harnessErr("pre-setup did not finish")
+			}
+			return
+		}
+		w.stat("c10.runs_with_redefined_hooks", 1)
 	}
 	sa := w.addActor(n, "127.0.0.1:50001", setup)
 	sa.onReply = func(op *Op) { hc.onReply(op, sa.end.c.name) }
